@@ -1,6 +1,6 @@
 """Which units decide which property (DESIGN.md sections 1, 5)."""
 
-VERUS_UNITS = ['U-FMT', 'U-REACH', 'U-COMPACTAS', 'U-SANITY', 'U-RESOLVE', 'U-CONTAINS', 'U-CALLS', 'U-DESCR', 'U-DERIVES', 'U-MIXED', 'U-BUILDERS', 'U-SUBST', 'U-VALIDATE', 'U-FLATTEN', 'U-PATHS']
+VERUS_UNITS = ['U-FMT', 'U-REACH', 'U-COMPACTAS', 'U-SANITY', 'U-RESOLVE', 'U-CONTAINS', 'U-CALLS', 'U-DESCR', 'U-DERIVES', 'U-MIXED', 'U-BUILDERS', 'U-SUBST', 'U-VALIDATE', 'U-FLATTEN', 'U-PATHS', 'U-TYPEIR']
 
 PROPS = {
     'C15': {
@@ -21,7 +21,7 @@ PROPS = {
     },
     'C08': {
         'level': 'proof',
-        'verus': ['U-REACH', 'U-COMPACTAS', 'U-DERIVES', 'U-FLATTEN'],
+        'verus': ['U-REACH', 'U-COMPACTAS', 'U-DERIVES', 'U-FLATTEN', 'U-TYPEIR'],
         'kani': ['uint_predicate_table', 'compact_as_unnamed_upto3'],
         'trusted_base': ['Verus 0.2026.09.13, Z3, rustc 1.98.1'],
         'assumptions': [
@@ -31,7 +31,7 @@ PROPS = {
         'not_covered': [
             'flatten_recursive_derives: how the id -> syn path map is computed (syn_type_path; abstracted), and which of several registry types sharing one path counts as the root of a recursive registration (the contract allows the first or all)',
             'derive/attribute token emission (Derives::to_tokens)',
-            'that create_type_ir calls the CompactAs predicate and resolve (upcast_composite, resolve, add_as_compact_derive are under contract; create_type_ir reaches syn)',
+            'create_type_ir: the statements that build syn values (type name, enum variants), docs, create_composite_ir_kind beyond its mixed-fields check, syn_type_path, TypeParameters::from_scale_info are opaque calls (R8\'\'); the contract is stated over whatever composite kind is returned',
         ],
     },
     'C10': {
